@@ -50,6 +50,20 @@ CHECKS = {
    design_ref="DESIGN.md section 3 C10",
    note="Interleavings of the pipeline threads are sampled by the OS; the oracle is interleaving independent. MockKv is the store (its own atomic commit is trusted).",
    engine="E4 storage model harness"),
+ "C02": dict(
+   technique="property-based testing with an owned schedule: generated programs x rounds of concurrent reader tasks scheduled on one thread by a generated tape at awaits and verif_hooks points; plus generated OS-thread stress plans of the backward-edge set with interleaving-independent oracles",
+   category="exploration",
+   text="(1) Rounds of 2..6 concurrent query tasks over overlapping roots run as plain futures under a tape-driven select loop (hooks make the engine's internal awaits and a few preemption points schedulable); every returned value and every dependency read must equal the from-scratch value, no query key may be inside two executors at once (harness enter/exit counters), the idle-runtime oracle detects deadlocks/lost wake-ups without a wall clock, and every round is followed by an input edit and a re-query of all nodes (lost backward edges show there). (2) OS-thread plans (2..16 threads, disjoint element ranges, crossing the 32-element tier) on the engine's CompressedBackwardEdgeSet and on Arc<DashSet>: insert/remove return values, iterate-after-insert visibility and final content against a model.",
+   design_ref="DESIGN.md section 3 C02",
+   note="Schedules are a subset of the real ones (interleaving only at awaits/hook points; OS-thread plans sample what the OS gives). The 16-worker engine stress with fan-in above the 1024 spill threshold belongs to the thorough tier. KF1 excluded by construction.",
+   engine="E2 single-thread scheduler + E7 thread stress"),
+ "C04": dict(
+   technique="property-based testing with an owned schedule: generated writer/reader task mixes scheduled by a tape at awaits and verif_hooks points; oracle = every tracked engine sees exactly one committed snapshot within its [lo,hi] window",
+   category="exploration",
+   text="One writer task (sessions of 0..3 set_input, commit() or drop) runs concurrently with 1..4 reader tasks (tracked(); queries; drop) on one thread; the tape decides the poll order at every await and at the hook points placed between the individual steps of input_session() and tracked(). All values one tracked engine receives must be the from-scratch values of a single committed snapshot k with lo <= k <= hi (lo = sessions finished before tracked() was called, hi = sessions started before it returned); a fresh reader after the phase must see the last snapshot; progress by the idle-runtime oracle. On InMemoryStorageEngine and DbBacked<MockKv>.",
+   design_ref="DESIGN.md section 3 C04",
+   note="Programs of In/Nq nodes only (the property is about the phase lock and the timestamp, firewalls would only add KF1). Dependency reads inside executors are not attributed to a snapshot (only user-level values are judged).",
+   engine="E2 single-thread scheduler"),
 }
 
 NOT_YET = {
@@ -90,6 +104,8 @@ def main():
         },
         "engines": [
             {"name": "E1 sequential interpreter", "path": "harness/vcore/src/seq.rs", "serves_properties": ["C01", "C03", "C07"], "kind_free_text": "program/history interpreter with from-scratch oracle, proptest driver (harness/vcore/src/driver.rs)"},
+            {"name": "E2 single-thread scheduler", "path": "harness/vcore/src/sched.rs", "serves_properties": ["C02", "C04", "C05", "C06"], "kind_free_text": "tape-driven select loop over harness futures + verif_hooks controller; idle-runtime deadlock oracle (paused tokio clock)"},
+            {"name": "E7 thread stress", "path": "harness/vcore/src/ck_sets.rs", "serves_properties": ["C02"], "kind_free_text": "generated OS-thread plans with interleaving-independent oracles"},
             {"name": "E4 storage model harness", "path": "harness/vcore/src/ck_storage.rs", "serves_properties": ["C09", "C10"], "kind_free_text": "op-stream interpreters over the public storage types with reference models"},
             {"name": "E3 MockKv", "path": "harness/vcore/src/mockkv.rs", "serves_properties": ["C01", "C03", "C07", "C08", "C09", "C10"], "kind_free_text": "scripted logging KvDatabase with commit gate, grouping policy, prefix re-materialisation"},
         ],
